@@ -116,6 +116,12 @@ def c16_r(ctx, f, table=None):
         ctx.abstain(r1, "expected three print_line call sites (top border, row pairs, last row), found %d" % len(pl), where_fn(fn))
         ctx.abstain(r2, "row pairing not in the recognised shape", where_fn(fn))
         return
+    plf = f.fn("helpers::print_line")
+    if plf is None or (plf.raw.get("inputs") or []) != ["&[module::Module]", "&[module::Module]", "usize"]:
+        # the private helper takes its arguments in another form (an output buffer, a struct, ...): positions are not read here
+        ctx.abstain(r1, "print_line does not have the signature (&[Module], &[Module], usize): its call sites are not read", where_fn(fn))
+        ctx.abstain(r2, "row pairing not in the recognised shape", where_fn(fn))
+        return
     pq = 1
     size = ("field", ("deref", ("param", 1)), 1, "size")
 
